@@ -489,6 +489,15 @@ class C14(RebuildProp):
                     for f in c["tree"]["files"]:
                         f["mode"] = mode
                     out.append(c)
+        # search directories whose PATH begins like the destination's (dest next to dest_incoming / dest.old): they are
+        # still search directories - nothing in them may be moved, changed or removed
+        for v in (1, 2, 3):
+            for snames in (["dest_incoming"], ["dest.old", "dest-2"], ["destination"]):
+                c = self.scen(rng, B, v, ("D3", (B + 5, 2 * B, 9)), lambda fi, f: [self.cand(rng, "decoy_all"), self.cand(rng, "intact")],
+                              nsearch=len(snames), file_arg=False, nested_search=False, search_spelling=None, dest_spelling=None,
+                              repeat=v == 2)
+                c["search_names"] = snames
+                out.append(c)
         for v in (1, 2, 3):           # only dead decoys: nothing may be placed
             for sizes in ((B + 1, 2 * B), (5, 3 * B), (2 * B, 2 * B)):
                 out.append(self.scen(rng, B, v, ("D2", sizes), lambda fi, f: [self.cand(rng, "decoy_all")], nsearch=1))
